@@ -3330,10 +3330,15 @@ func (t *transport) RoundTrip(hc *HostClient, req *Request, resp *Response) (ret
 				return nil
 			}
 			hc.ReleaseReader(br)
+			// The connection can be reused only if the response body was read
+			// to its end. Otherwise the rest of it would be taken for the
+			// response to the next request.
+			bodyConsumed := true
 			if r, ok := rbs.(*requestStream); ok {
+				bodyConsumed = r.fullyRead()
 				releaseRequestStream(r)
 			}
-			if closeConn || resp.ConnectionClose() || wErr != nil {
+			if closeConn || resp.ConnectionClose() || wErr != nil || !bodyConsumed {
 				hc.CloseConn(cc)
 			} else {
 				hc.ReleaseConn(cc)
